@@ -205,7 +205,7 @@ def hist_requests(h):
 
 def eval_history(h, on_fail):
     """run the queries of `h` in order on the implementation; evaluate the clauses after every step.
-    on_fail(oracle, step, expected, observed); stops at the first failing step.  Returns per step the observed
+    on_fail(oracle, step, expected, observed); stops after the first step with a wrong result.  Returns per step the observed
     sorted [(value, position)] (rettime) / sorted [value] (no rettime) / None."""
     from qats import TimeSeries
     x = [Fraction(v) for v in h["x"]]
@@ -226,8 +226,8 @@ def eval_history(h, on_fail):
 
         def fail(oracle, expected, observed):
             nonlocal bad
-            bad = True
-            on_fail(oracle, step, expected, observed)
+            bad = bad or oracle not in (H_READBACK, H_INTACT)      # a wrong result ends the history; an altered series does not:
+            on_fail(oracle, step, expected, observed)              # the following queries show what it does to the results
         try:
             if op["q"] in ("max", "min"):
                 v = getattr(ts, op["q"])(twin=tw) if tw is not None else getattr(ts, op["q"])()
@@ -427,6 +427,16 @@ def run(chk):
 def replay(rp):
     from qats.signal import find_maxima
     inp = rp["input"]
+    if inp.get("kind") == "history":
+        fails = []
+        seen = eval_history(inp, lambda oracle, step, e, o: fails.append((oracle, step, e, o)))
+        for step, (op, got) in enumerate(zip(inp["ops"], seen)):
+            print("step %d: %s -> %s" % (step, {k: v for k, v in op.items() if v not in (None, False)},
+                                         None if got is None else [(str(a[0]), a[1]) if isinstance(a, tuple) else str(a) for a in got]))
+        for oracle, step, e, o in fails:
+            print("FAILS at step %d: %s\n   expected %s\n   observed %s" % (step, oracle, e, o))
+        print("replay: %d failing clause(s)" % len(fails))
+        return 1 if fails else 0
     x = [Fraction(v) for v in inp["x"]]
     xf = np.array([float(v) for v in x])
     bad = 0
